@@ -205,6 +205,15 @@ def entries():
                 md.append(Spec(f"copy[{copy}]+{arg}" + ("+keep_dim" if keep else ""), CP.cp_mode_dot,
                                {"cp_tensor": cpd("nonunit", only=W), "matrix_or_vector": mv[arg], "mode": 1, "keep_dim": keep, "copy": copy},
                                {"cp_tensor": WC["nonunit"]}, exempt=() if copy else ("cp_tensor",), sizes=ALL))
+    # every position of the contracted / multiplied mode (first, last): which factor is written depends on it
+    for mlabel, mfn in (("mode0", lambda c: 0), ("mode-last", lambda c: c.N - 1)):
+        for copy in (True, False):
+            for arg in ("matrix", "vector"):
+                for keep in ((False, True) if arg == "vector" else (False,)):
+                    opnd = (L(lambda c, mfn=mfn: mat((5, c.shape[mfn(c)]), c, 8)) if arg == "matrix" else L(lambda c, mfn=mfn: mat((c.shape[mfn(c)],), c, 8)))
+                    md.append(Spec(f"{mlabel}+copy[{copy}]+{arg}" + ("+keep_dim" if keep else ""), CP.cp_mode_dot,
+                                   {"cp_tensor": cpd("nonunit", only=W), "matrix_or_vector": opnd, "mode": L(mfn), "keep_dim": keep, "copy": copy},
+                                   {"cp_tensor": WC["nonunit"]}, exempt=() if copy else ("cp_tensor",), sizes=ALL))
     md.append(Spec("copy[True]+tuple-input", CP.cp_mode_dot, {"cp_tensor": cpd("nonunit", only=("tuple", "list")), "matrix_or_vector": mv["matrix"], "mode": 1, "copy": True},
                    {"cp_tensor": WC["nonunit"]}, sizes=ALL))
     md.append(Spec("raise[shape]+copy[True]", CP.cp_mode_dot, {"cp_tensor": cpd("nonunit"), "matrix_or_vector": L(lambda c: mat((5, 9), c, 8)), "mode": 1, "copy": True},
@@ -246,6 +255,12 @@ def entries():
         for arg in ("matrix", "vector"):
             tmd.append(Spec(f"copy[{copy}]+{arg}", TK.tucker_mode_dot, {"tucker_tensor": tkd(), "matrix_or_vector": mv[arg], "mode": 1, "copy": copy}, TKc,
                             exempt=() if copy else ("tucker_tensor",), sizes=ALL if arg == "matrix" else (0, 1, 3)))
+    for mlabel, mfn in (("mode0", lambda c: 0), ("mode-last", lambda c: c.N - 1)):
+        for copy in (True, False):
+            for arg in ("matrix", "vector"):
+                opnd = (L(lambda c, mfn=mfn: mat((5, c.shape[mfn(c)]), c, 8)) if arg == "matrix" else L(lambda c, mfn=mfn: mat((c.shape[mfn(c)],), c, 8)))
+                tmd.append(Spec(f"{mlabel}+copy[{copy}]+{arg}", TK.tucker_mode_dot, {"tucker_tensor": tkd(), "matrix_or_vector": opnd, "mode": L(mfn), "copy": copy}, TKc,
+                                exempt=() if copy else ("tucker_tensor",), sizes=ALL if arg == "matrix" else (0, 1, 3)))
     add("tucker_tensor.tucker_mode_dot", [TK.tucker_mode_dot], tmd, "tucker_tensor")
     add("tucker_tensor.validate_tucker_rank", [TK.validate_tucker_rank],
         [Spec("float+fixed_modes", TK.validate_tucker_rank, {"tensor_shape": L(lambda c: list(c.shape)), "rank": 0.5, "fixed_modes": L(lambda c: [1, 0])},
